@@ -42,6 +42,13 @@ def rule_l_pair(la, res, fns, rule="L-PAIR"):
                 f.name, sorted(map(key_str, leaked)), sorted(map(key_str, dropped)))
             res.fail(rule, f.name, "%s|%s|exit-lockset" % (rule, f.name), f.loc(), msg)
             ok = False
+        may = la.lockset_may(f, ctx).get(f.exit)
+        if may is not None and set(may) - set(ctx):
+            leaked = set(may) - set(ctx)
+            res.fail(rule, f.name, "%s|%s|leak-on-some-path" % (rule, f.name), f.loc(),
+                     "%s has an exit path that returns with %s still held (an early return between acquire and release): the next operation on the channel deadlocks"
+                     % (f.name, sorted(map(key_str, leaked))))
+            ok = False
         if ok:
             n_acq = sum(1 for lst in la.events(f).values() for evs in lst
                         for e in evs if e[0] == "acq")
